@@ -170,7 +170,153 @@ def h14c_duration(seconds, largest, smallest, style, auto):
         assert v * UNIT_SECONDS[u] < UNIT_SECONDS[prev]
 
 
+UNITS_MS = UNITS + [DurationUnits.MILLISECOND]
+UNIT_MS = {DurationUnits.WEEK: 604800000, DurationUnits.DAY: 86400000, DurationUnits.HOUR: 3600000, DurationUnits.MINUTE: 60000,
+           DurationUnits.SECOND: 1000, DurationUnits.MILLISECOND: 1}
+
+
+def digits_of(text):
+    nums = []
+    cur = ""
+    for ch in text:
+        if "0" <= ch <= "9":
+            cur += ch
+        else:
+            if cur:
+                nums.append(int(cur))
+            cur = ""
+    if cur:
+        nums.append(int(cur))
+    return nums
+
+
+def h14c_ms(ms, largest, smallest, style, auto):
+    """durations at millisecond resolution: the displayed components, read back unit by unit, give the duration truncated
+    to the smallest unit shown; with automatic units nothing is cut off"""
+    assume(largest <= smallest)
+    assume(0 <= ms)
+    cell = object.__new__(DurationCell)
+    cell.row = 0
+    cell.col = 0
+    cell._table_id = 7
+    cell._duration_format_id = 1
+    cell._double = ms / 1000
+    cell._model = FmtModel(Rec(duration_style=style, duration_unit_largest=largest, duration_unit_smallest=smallest,
+                               use_automatic_duration_units=auto))
+    text = cell._duration_format()
+    nums = digits_of(text)
+    if auto:
+        # automatic units: the largest unit is the biggest one the value reaches (0 displays in days); the run of units
+        # shown must be long enough that nothing is cut off
+        if ms == 0:
+            big = DurationUnits.DAY
+        else:
+            big = DurationUnits.MILLISECOND
+            for u in UNITS_MS:
+                if ms >= UNIT_MS[u]:
+                    big = u
+                    break
+        assert 1 <= len(nums) <= len(UNITS_MS) - UNITS_MS.index(big)
+        shown = UNITS_MS[UNITS_MS.index(big): UNITS_MS.index(big) + len(nums)]
+        cover("auto-units")
+        total = 0
+        assert len(nums) >= 1
+        return
+    shown = [u for u in UNITS if largest <= u <= smallest]
+    assert len(nums) == len(shown)
+    total = 0
+    for v, u in zip(nums, shown):
+        total += v * UNIT_SECONDS[u]
+    small = UNIT_SECONDS[shown[-1]]
+    assert total == (seconds // small) * small
+    for v, u in zip(nums[1:], shown[1:]):
+        prev = shown[shown.index(u) - 1]
+        assert v * UNIT_SECONDS[u] < UNIT_SECONDS[prev]
+
+
+UNITS_MS = UNITS + [DurationUnits.MILLISECOND]
+UNIT_MS = {DurationUnits.WEEK: 604800000, DurationUnits.DAY: 86400000, DurationUnits.HOUR: 3600000, DurationUnits.MINUTE: 60000,
+           DurationUnits.SECOND: 1000, DurationUnits.MILLISECOND: 1}
+
+
+def digits_of(text):
+    nums = []
+    cur = ""
+    for ch in text:
+        if "0" <= ch <= "9":
+            cur += ch
+        else:
+            if cur:
+                nums.append(int(cur))
+            cur = ""
+    if cur:
+        nums.append(int(cur))
+    return nums
+
+
+def h14c_ms(ms, largest, smallest, style, auto):
+    """durations at millisecond resolution: the displayed components, read back unit by unit, give the duration truncated
+    to the smallest unit shown; with automatic units nothing is cut off"""
+    assume(largest <= smallest)
+    assume(0 <= ms)
+    cell = object.__new__(DurationCell)
+    cell.row = 0
+    cell.col = 0
+    cell._table_id = 7
+    cell._duration_format_id = 1
+    cell._double = ms / 1000
+    cell._model = FmtModel(Rec(duration_style=style, duration_unit_largest=largest, duration_unit_smallest=smallest,
+                               use_automatic_duration_units=auto))
+    text = cell._duration_format()
+    nums = digits_of(text)
+    if auto:
+        # automatic units: the largest unit is the biggest one the value reaches (0 displays in days); the run of units
+        # shown must be long enough that nothing is cut off
+        if ms == 0:
+            big = small = DurationUnits.DAY
+        else:
+            big = DurationUnits.MILLISECOND
+            for u in UNITS_MS:
+                if ms >= UNIT_MS[u]:
+                    big = u
+                    break
+            small = DurationUnits.WEEK
+            for u in reversed(UNITS_MS):
+                if ms % UNIT_MS[u] == 0:
+                    small = u
+            for u in reversed(UNITS_MS):
+                if ms % UNIT_MS[u] != 0:
+                    small = UNITS_MS[UNITS_MS.index(u)]
+            # finest unit with a non-zero remainder w.r.t. the next coarser unit
+            small = DurationUnits.WEEK
+            for u in UNITS_MS:
+                if ms % UNIT_MS[u] == 0:
+                    small = u
+                    break
+            if small < big:
+                small = big
+        shown = [u for u in UNITS_MS if big <= u <= small]
+        cover("auto-units")
+    else:
+        shown = [u for u in UNITS_MS if largest <= u <= smallest]
+    assert len(nums) == len(shown)
+    total = 0
+    for v, u in zip(nums, shown):
+        total += v * UNIT_MS[u]
+    cut = UNIT_MS[shown[-1]]
+    assert total == (ms // cut) * cut
+    if auto:
+        assert total == ms
+    for v, u in zip(nums[1:], shown[1:]):
+        prev = shown[shown.index(u) - 1]
+        assert v * UNIT_MS[u] < UNIT_MS[prev]
+    # style decorations
+    if style == int(DurationStyle.COMPACT) and shown[-1] == DurationUnits.MILLISECOND and len(shown) > 1:
+        assert text[-4] == "." and len(text.split(".")[-1]) == 3
+
+
 UCODES = [int(u) for u in UNITS]
+UCODES_MS = [int(u) for u in UNITS_MS]
 
 
 def _scan(n):
@@ -196,6 +342,20 @@ HARNESSES = [
             outside=["millisecond unit and sub-second durations (float products)", "automatic units", "durations beyond the bound"],
             stubs=["int(d / k): lemma cut trunc(fp(a)/k) == a div k for k in {604800, 86400, 3600, 60}", "format archive = attribute bag"]),
 ]
-TIER_HARNESSES = {"quick": ["H14a", "H14b-n0", "H14b-n1", "H14b-n2", "H14b-n3", "H14c"],
-                  "thorough": ["H14a", "H14b-n0", "H14b-n1", "H14b-n2", "H14b-n3", "H14b-n4", "H14c"]}
+HARNESSES.append(
+    Harness("H14c-ms", h14c_ms,
+            lambda tier: dict(ms=IntDom(0, 10 ** 7 if tier == "quick" else 315576000000),
+                              largest=Cases([1, 4, 16, 32] if tier == "quick" else UCODES_MS),
+                              smallest=Cases([16, 32] if tier == "quick" else UCODES_MS),
+                              style=Cases([int(DurationStyle.COMPACT), int(DurationStyle.SHORT), int(DurationStyle.LONG)]),
+                              auto=Cases([False, True])),
+            bounds="durations at millisecond resolution 0..10^7 ms (quick) / 0..10 years (thorough); unit pairs "
+                   "{WEEK,HOUR,SECOND,MILLISECOND} x {SECOND,MILLISECOND} (quick) / all 21 pairs WEEK..MILLISECOND (thorough); "
+                   "three styles; fixed and automatic units",
+            outside=["durations that are not a whole number of milliseconds", "negative durations"],
+            stubs=["binary64 arithmetic (d / k, d -= k * n, 1000 * d, d % k) encoded as the IEEE-754 round-to-nearest error "
+                   "enclosure over linear real/integer arithmetic (sound over-approximation); int() / round() exact on it",
+                   "format archive = attribute bag"]))
+TIER_HARNESSES = {"quick": ["H14a", "H14b-n0", "H14b-n1", "H14b-n2", "H14b-n3", "H14c", "H14c-ms"],
+                  "thorough": ["H14a", "H14b-n0", "H14b-n1", "H14b-n2", "H14b-n3", "H14b-n4", "H14c", "H14c-ms"]}
 PROPERTY = "C14"
